@@ -296,7 +296,117 @@ func dateConstraintTable(p *load.Prog) (bool, string) {
 	return true, ""
 }
 
+// uuidPattern32: the pattern that gates NewUUIDFromString matches exactly the 32 bytes the slices cut up.
+func uuidPattern32(p *load.Prog) (bool, string) {
+	g := p.Global(load.PkgRoot, "uuidRegexp")
+	if g == nil {
+		return false, "uuidRegexp not found"
+	}
+	pat, err := absint.FoldGlobalRegexp(g)
+	if err != nil {
+		return false, "cannot read the pattern of uuidRegexp: " + err.Error()
+	}
+	n, err := relang.MinLenOf(pat)
+	if err != nil {
+		return false, "cannot parse " + pat
+	}
+	if n < 32 {
+		return false, fmt.Sprintf("uuidRegexp (%s) matches a text of only %d bytes, but NewUUIDFromString slices up to byte 32", pat, n)
+	}
+	return true, ""
+}
+
+// minIntArgs: every call of the variadic minInt passes at least one value.
+func minIntArgs(p *load.Prog) (bool, string) {
+	f := p.Func(load.PkgRoot, "minInt")
+	if f == nil {
+		return false, "minInt not found"
+	}
+	n := 0
+	for _, fn := range p.Repo {
+		for _, c := range su.CallsTo(fn, f) {
+			n++
+			sl, ok := c.Call.Args[len(c.Call.Args)-1].(*ssa.Slice)
+			if !ok {
+				return false, "minInt is called with a computed slice in " + load.FuncName(fn)
+			}
+			al, ok := sl.X.(*ssa.Alloc)
+			if !ok {
+				return false, "minInt is called with a computed slice in " + load.FuncName(fn)
+			}
+			if at, ok := al.Type().(*types.Pointer).Elem().Underlying().(*types.Array); !ok || at.Len() < 1 {
+				return false, "minInt is called without values in " + load.FuncName(fn)
+			}
+		}
+	}
+	if n == 0 {
+		return false, "minInt is never called"
+	}
+	return true, ""
+}
+
+// surnameGroup: group 2 of nameRegexp, when it takes part in a match, is at least the two slashes.
+func surnameGroup(p *load.Prog) (bool, string) {
+	g := p.Global(load.PkgRoot, "nameRegexp")
+	if g == nil {
+		return false, "nameRegexp not found"
+	}
+	pat, err := absint.FoldGlobalRegexp(g)
+	if err != nil {
+		return false, "cannot read the pattern of nameRegexp: " + err.Error()
+	}
+	sub, err := relang.Group(pat, 2)
+	if err != nil {
+		return false, "nameRegexp has no group 2"
+	}
+	if n := relang.MinLen(sub); n < 2 {
+		return false, fmt.Sprintf("group 2 of nameRegexp (%s) can capture a text of %d byte(s); Surname() cuts one byte off each end of it", pat, n)
+	}
+	return true, ""
+}
+
+// comparisonStringCovers: the switch in DateRangeComparison.String has a case for every constant of the type.
+func comparisonStringCovers(p *load.Prog) (bool, string) {
+	pkg := p.ByPath[load.PkgRoot]
+	tObj := pkg.Types.Scope().Lookup("DateRangeComparison")
+	fn := p.Method(load.PkgRoot, "DateRangeComparison", "String")
+	if tObj == nil || fn == nil {
+		return false, "DateRangeComparison / its String method not found"
+	}
+	cases := map[string]bool{}
+	for _, b := range fn.Blocks {
+		for _, ins := range b.Instrs {
+			if bo, ok := ins.(*ssa.BinOp); ok && bo.Op == token.EQL {
+				if k, ok := bo.Y.(*ssa.Const); ok {
+					if k.Value == nil {
+						cases["0"] = true
+					} else {
+						cases[k.Value.ExactString()] = true
+					}
+				}
+			}
+		}
+	}
+	for _, name := range pkg.Types.Scope().Names() {
+		c, ok := pkg.Types.Scope().Lookup(name).(*types.Const)
+		if !ok || !types.Identical(c.Type(), tObj.Type()) {
+			continue
+		}
+		if !cases[c.Val().ExactString()] {
+			return false, "the constant " + name + " has no case in DateRangeComparison.String: printing that comparison reaches the default panic"
+		}
+	}
+	return true, ""
+}
+
 var tableSideConditions = map[string]func(p *load.Prog) (bool, string){
+	"P3 slice string in gedcom.NewUUIDFromString":                                    uuidPattern32,
+	"P3 slice string in gedcom.NewUUIDFromString #2":                                 uuidPattern32,
+	"P3 slice string in gedcom.NewUUIDFromString #3":                                 uuidPattern32,
+	"P3 slice string in gedcom.NewUUIDFromString #4":                                 uuidPattern32,
+	"P3 index []int const 0 in gedcom.minInt":                                        minIntArgs,
+	"P3 slice string in (*gedcom.NameNode).Surname":                                  surnameGroup,
+	"P1 panic in (gedcom.DateRangeComparison).String":                                comparisonStringCovers,
 	"P3 index [][]func(d1 gedcom.Date, d2 gedcom.Date) bool in (gedcom.Date).Equals": dateConstraintTable,
 	"P3 index []func(d1 gedcom.Date, d2 gedcom.Date) bool in (gedcom.Date).Equals":   dateConstraintTable,
 	"P3 slice string in (*q.Parser).consumeConstant": func(p *load.Prog) (bool, string) {
